@@ -58,8 +58,8 @@ ASYNC = {
     "a06": ("non-async fn whose tail is the qualified std::boxed::Box::pin(async move {..}), Send boxed future", ("n0", "n1")),
     "a07": ("non-async fn whose tail is ::std::boxed::Box::pin(async move {..}), Send boxed future", ("n1",)),
 }
-QUICK_A = {"p01", "p03", "p08", "p10", "p12", "p16", "p20", "p22", "p25", "p26", "a01", "a03"}
-QUICK_B = {"p10", "p12", "p19", "p25", "p26", "a03_n0", "a06_n0"}
+QUICK_A = {"p01", "p03", "p10", "p12", "p16", "p20", "p22", "p25", "p26", "a01"}
+QUICK_B = {"p10", "p12", "p19", "p25", "a06_n0"}
 QUICK_K = {"p14"}
 REAL_REGISTRY = {"p01": "1 callsite", "p12": "3 callsites (span, ret, err), values formatted",
                  "p14": "1 callsite, name/level/target", "a01_n0": "async, one poll"}
@@ -102,7 +102,7 @@ SPEC = {
     "group": G,
     "level": "translation_validation",
     "harnesses": hs,
-    "caps": {"jobs": 2, "mem_gb": 9.5, "quick_harness_timeout": 400, "thorough_harness_timeout": 1500},
+    "caps": {"jobs": 3, "mem_gb": 12, "quick_harness_timeout": 400, "thorough_harness_timeout": 1500},
     "functions": [
         "tracing_attributes::expand::{gen_function, gen_block} as *expanded code* (sync: span + guard before the block, "
         "ret/err closure wrapper; async: block moved into an async block wrapped in Instrumented; "
